@@ -120,10 +120,12 @@ func decide(rng *rand.Rand) decision {
 		return decision{a: "put", rf: false}
 	case x < 80:
 		return decision{a: "decline"}
-	case x < 92:
+	case x < 90:
 		return decision{a: "err", rf: true}
-	default:
+	case x < 95:
 		return decision{a: "err", rf: false}
+	default: // a value the store cannot serialise / merge
+		return decision{a: "bad", rf: x%2 == 0}
 	}
 }
 
@@ -200,6 +202,8 @@ func recordFree(st *store, key string, n, m int, seed int64) ([][]tstep, error) 
 						return WithTag(inv, c, k), d.rf, nil
 					case "decline":
 						return nil, d.rf, nil
+					case "bad":
+						return unstorable{}, d.rf, nil
 					}
 					return nil, d.rf, errF
 				})
@@ -226,7 +230,7 @@ func recordSched(st *store, key string, n, m int, seed int64, nwatch int) ([][]t
 	cs := make([]*caller, n+1)
 	logs := make([]*evlog, n+1)
 	for c := 1; c <= n; c++ {
-		cs[c] = &caller{id: c, gate: make(chan decision)}
+		cs[c] = &caller{id: c, gate: make(chan decision), alias: aliasMode(c)}
 		logs[c] = &evlog{}
 	}
 	onEnter := func(c *caller, in [][3]int) { logs[c.id].enter(in) }
